@@ -40,6 +40,7 @@ type LoopSpec struct {
 	Decreases   *Clause
 	Unroll      int      // >0: unroll this many times instead of using an invariant (bounded by operand width)
 	WritesFresh bool     // every heap write in the loop targets an object allocated after function entry (or a loop-invariant root)
+	Isolate     bool     // obligations from this loop head on are proved without the quantified facts collected before it
 	Assigns     []string // loop frame: the objects (assigns designators, evaluated at loop entry) the body may write besides loop-invariant roots and objects it allocates
 }
 
@@ -439,6 +440,8 @@ func (cs *ContractSet) ParseContractFile(path, pkgPath string, trusted bool) err
 						return fmt.Errorf("%s: only 'loop N writes fresh' is supported", where)
 					}
 					ls.WritesFresh = true
+				case "isolate":
+					ls.Isolate = true
 				case "assigns":
 					ls.Assigns = append(ls.Assigns, txt)
 				case "unroll":
